@@ -1,6 +1,7 @@
 package engines
 
 import (
+	"sync/atomic"
 	"bytes"
 	"fmt"
 	"reflect"
@@ -900,6 +901,8 @@ var (
 	tputsSpec   = regexp.MustCompile(`^[0-9]+(\.[0-9]*)?[*/]*$`)
 )
 
+var tputsSlow int32
+
 func execTPuts(line string) h.Result {
 	f := strings.Fields(line)
 	for len(f) < 3 {
@@ -907,11 +910,34 @@ func execTPuts(line string) h.Result {
 	}
 	pad, s := h.Unhex(f[1]), string(h.Unhex(f[2]))
 	ti := &terminfo.Terminfo{PadChar: string(pad)}
-	var buf bytes.Buffer
+	// TPuts runs under a deadline: a tree that sleeps where it must not (or far longer than the string asks) would otherwise
+	// turn the run into hours of sleeping.  The call that overran is abandoned (it owns its buffer) and reported.
+	budget := 400 * time.Millisecond
+	if len(pad) > 0 {
+		budget = 3 * time.Second
+	} else if atomic.LoadInt32(&tputsSlow) >= 8 {
+		budget = 60 * time.Millisecond
+	}
+	done := make(chan []byte, 1)
 	t0 := time.Now()
-	ti.TPuts(&buf, s)
+	go func() {
+		var buf bytes.Buffer
+		ti.TPuts(&buf, s)
+		done <- buf.Bytes()
+	}()
+	var out []byte
+	overran := false
+	select {
+	case out = <-done:
+	case <-time.After(budget):
+		overran = true
+		atomic.AddInt32(&tputsSlow, 1)
+	}
 	el := time.Since(t0)
-	res := h.Result{Obs: h.Hex(buf.Bytes())}
+	res := h.Result{Obs: h.Hex(out)}
+	if overran {
+		res.Obs = "TIMEOUT"
+	}
 	res.Derived = []string{"tputsref " + f[2] + " => " + res.Obs}
 	has := strings.Contains(s, "$<")
 	res.Nontrivial = has
